@@ -245,8 +245,14 @@ pub fn random_step(rng: &mut Rng, c: &mut Cli, padlens: &[usize]) -> Value {
                 c.sids.push(sid);
             }
             let obj = if rng.chance(1, 2) { Amf0Value::Null } else { status("x") };
-            let b = c.peer.encode(cmd(if is_result { "_result" } else { "_error" }, txn as f64, obj, args), ts, 0);
-            c.input(json!({"m": if is_result {"result"} else {"error"},"txn":txn,"txnint":true,"hassid":hassid,"sid":sid}), &b)
+            // one answer in six carries an id that is NOT a transaction id of this session but turns into one under a careless
+            // conversion (wrap modulo 2^32, truncation of a fraction, sign): it answers nothing and must be reported as unknown
+            let (wire_id, valid) = if rng.chance(1, 6) {
+                let t = txn as f64;
+                (*rng.pick(&[t + 4294967296.0, t + 12884901888.0, t - 4294967296.0, t + 0.5, -t - 1.0, t + 1e15, f64::NAN, f64::INFINITY]), false)
+            } else { (txn as f64, true) };
+            let b = c.peer.encode(cmd(if is_result { "_result" } else { "_error" }, wire_id, obj, args), ts, 0);
+            c.input(json!({"m": if is_result {"result"} else {"error"},"txn":txn,"txnint":valid,"hassid":hassid,"sid":sid,"wire":format!("{}", wire_id)}), &b)
         }
         63..=72 => {
             let (args, code) = match rng.below(9) {
